@@ -59,11 +59,11 @@ func drawKnobs(t *simcore.Tape, faulty bool) knobs {
 		deleteW:  []int{2, 4}[t.CfgDraw(2)],
 		flapW:    []int{1, 2}[t.CfgDraw(2)],
 		chanW:    []int{0, 1, 1}[t.CfgDraw(3)],
-		restartW: []int{1, 2, 3}[t.CfgDraw(3)],
+		restartW: []int{1, 1, 2}[t.CfgDraw(3)],
 		maxSteps: 30 + 30*t.CfgDraw(3),
 	}
 	if faulty {
-		k.faultDen = []int{6, 10, 16}[t.CfgDraw(3)]
+		k.faultDen = []int{8, 12, 20}[t.CfgDraw(3)]
 	}
 	return k
 }
